@@ -163,6 +163,39 @@ def store_queries(sl):
         observe("error rate 0 without requests", err == 0)
 
 
+def incremental_hand_over(sl):
+    """samples reach race control's store step by step (bulk_add after every step, as the driver hands them over), and results may be
+    read in between: every query reflects ALL records handed over so far - nothing computed earlier sticks"""
+    from harness import c07
+
+    n1, n2 = sl["first"], sl["second"]
+    a = [fresh_real("a%d" % i) for i in range(n1)]
+    b = [fresh_real("b%d" % i) for i in range(n2)]
+    worker = _store()
+    rc = _store()
+    with shadowed(metrics, SHADOW_NAMES, extra={"math": core.math_shadow, "statistics": StatisticsShadow, "pickle": c07.Identity, "zlib": c07.Identity}):
+        for v in a:
+            worker._add(_doc("latency", "t1", "normal", v))
+        rc.bulk_add(worker.to_externalizable(clear=True))
+        first = rc.get_stats("latency", task="t1", sample_type=metrics.SampleType.Normal)
+        p_first = rc.get_percentiles("latency", task="t1", sample_type=metrics.SampleType.Normal, percentiles=[100])
+        for v in b:
+            worker._add(_doc("latency", "t1", "normal", v))
+        rc.bulk_add(worker.to_externalizable(clear=True))
+        second = rc.get_stats("latency", task="t1", sample_type=metrics.SampleType.Normal)
+        p_second = rc.get_percentiles("latency", task="t1", sample_type=metrics.SampleType.Normal, percentiles=[0, 100])
+        raw = rc.get("latency", task="t1", sample_type=metrics.SampleType.Normal)
+    core.trace("count", len(raw))
+    observe("every handed-over record is in the store exactly once", len(raw) == n1 + n2)
+    observe("first query sees the first hand-over", first is not None and first["count"] == n1 and bool(s_and(*[p_first[100] >= v for v in a])))
+    observe("second query: count of all records", second is not None and second["count"] == n1 + n2)
+    if second is not None:
+        observe("second query: sum of all records", second["sum"] == sum(a + b))
+        observe("second query: max is an upper bound of ALL records and attained", s_and(*[second["max"] >= v for v in a + b]) & s_or(*[second["max"] == v for v in a + b]))
+        observe("second query: p100 == max, p0 == min over all records", s_and(p_second[100] == second["max"], p_second[0] == second["min"],
+                                                                              *[p_second[0] <= v for v in a + b]))
+
+
 # ------------------------------------------------------------------------------------------------------------------
 GLOBAL_SUMS = [("node_total_old_gen_gc_count", "old_gc_count"), ("indexing_throttle_time", "indexing_throttle_time"),
                ("flush_total_count", "flush_count"), ("translog_size_in_bytes", "translog_size")]
@@ -434,6 +467,9 @@ HARNESSES = [
             reads=READS, stubs=STUBS, assumptions=ASSUME, real_valued=True,
             bounds={"records": "<=3 quick / <=4 thorough, attributes from 2 names x 2 tasks x 2 sample types (x 2 operation types), success flag, symbolic real value"},
             doc="filters, min/mean/median/max/sum/count, error rate"),
+    Harness("incremental_hand_over", incremental_hand_over, "symbolic", lambda tier: [{"first": 2, "second": 2}, {"first": 1, "second": 3}], reads=READS, stubs=STUBS,
+            assumptions=ASSUME + ["pickle/zlib round trip of the hand-over replaced by identity (pickle fidelity trusted)"], real_valued=True,
+            bounds={"hand-overs": 2, "records": "2+2 / 1+3 symbolic real values"}, doc="queries between two hand-overs do not freeze later results"),
     Harness("file_race_store", file_race_store, "bounded-exhaustive", lambda tier: [{"fail_first": False}, {"fail_first": True}],
             reads=READS + [metrics.FileRaceStore.store_race, metrics.FileRaceStore.find_by_race_id, metrics.FileRaceStore.list, metrics.FileRaceStore._to_races],
             assumptions=["runs on a real temporary directory with the real json module (finite family of values: %s)" % VALUES],
